@@ -23,6 +23,9 @@ FIXED = [
  ("C08", "fix: a kill during table clear/create", "kill inside DropRowRange(all)/CreateTable after the new MANIFEST file is created but before CURRENT is set (or in the middle of the directory removal): the next start panics with 'file missing'"),
  ("C10", "fix: a metadata PATCH could overwrite", "PATCH body naming md5Hash/generation replaces the stored md5Hash (both stores) and generation (memory store)"),
  ("C10", "fix: memory store shared one", "memory store: after Copy a -> b, PATCH of b's metadata also changes a's metadata (shared map; also C15)"),
+ ("C15", "fix: rewrite truncated destination", "copy to destination x/o/y writes object x; (also C20: a rewrite path without /o/ panics)"),
+ ("C11", "fix: listing with a delimiter repeated", "names a d/1 d/2 d/3 e g/x h, delimiter /, maxResults 2 -> pages [a d/] [d/] and nothing after; a page holding only prefixes ends the listing"),
+ ("C11", "fix: file store listed", "file store: names a.txt and a/b are listed as [a/b a.txt]; with prefix=a, delimiter=/ the items a.txt and a0 are skipped (directory a/ walked before a.txt; also C09)"),
  ("C17", "fix: leveldb row iteration ignored", "leveldb engines: a filter error raised on a non-last row is overwritten by the next row; read ends OK with the row missing (btree returns InvalidArgument; seen through C05)"),
 ]
 OPEN = [
